@@ -3,8 +3,9 @@
 
    - C07 identity: in every nesting context, if the heading levels of the blocks are well nested
      (first 1, never skipping a level) the levels written back are exactly those levels;
-   - C01 conservation: on the claimed input class every block's content occurs in the tree
-     exactly once and in document order (with NormFacts.project_conserves: in the written blocks).
+   - C01 conservation: for EVERY block list every block's content occurs in the tree exactly once
+     and in document order; a list item contributes its line first - its text, or an empty line
+     when it has none (with NormFacts.project_conserves: in the written blocks).
 
    Both for block lists of any length and nesting. *)
 From IweV Require Import Str Text Ast RelPath Arena Project SectionsSpec Check_Norm NormFacts BuilderFacts.
@@ -110,8 +111,9 @@ Section Identity.
     item_tree dir (S f) it =
     match it with
     | [] => []
-    | (DBList inner | DOList inner) :: _ => flat_map (item_tree dir f) inner
-    | h :: body => [T None (NSection (lead_inlines dir h)) (blocks_tree dir f body)]
+    | [DBList inner] | [DOList inner] => flat_map (item_tree dir f) inner
+    | ((DPara _ _ | DHeader _ _ _) as h) :: body => [T None (NSection (lead_inlines dir h)) (blocks_tree dir f body)]
+    | _ => [T None (NSection []) (blocks_tree dir f it)]
     end.
   Proof. reflexivity. Qed.
 
@@ -212,57 +214,13 @@ Qed.
 
 (* ---------- C01: the tree holds every block's content once, in document order -------------------- *)
 
-Definition item_plain (it : list dblock) : bool :=
-  match it with
-  | (DCode _ _ _ | DQuote _ _ | DTable _ _ _ _ | DRule _) :: _ => false
-  | (DBList _ | DOList _) :: _ :: _ => false
-  | _ => true
-  end.
-
-Definition items_plain (its : list (list dblock)) : Prop :=
-  Forall (fun it => item_plain it = true /\ Forall (fun b => plain_items b = true) it) its.
-
-Lemma plain_go l :
-  (fix go (l : list dblock) : bool := match l with [] => true | x :: r => plain_items x && go r end) l = true
-  <-> Forall (fun b => plain_items b = true) l.
-Proof.
-  induction l as [|x l IH]; [split; [constructor | reflexivity]|].
-  rewrite Bool.andb_true_iff, IH. split.
-  - intros [? ?]. now constructor.
-  - intros H. inversion H; subst. auto.
-Qed.
-
-Lemma plain_goi its :
-  (fix goi (l : list (list dblock)) : bool :=
-     match l with
-     | [] => true
-     | it :: r => (match it with
-                   | (DCode _ _ _ | DQuote _ _ | DTable _ _ _ _ | DRule _) :: _ => false
-                   | (DBList _ | DOList _) :: _ :: _ => false
-                   | _ => true
-                   end) &&
-         (fix go (l : list dblock) : bool := match l with [] => true | x :: r => plain_items x && go r end) it && goi r
-     end) its = true <-> items_plain its.
-Proof.
-  unfold items_plain. induction its as [|it its IH]; [split; [constructor | reflexivity]|].
-  rewrite !Bool.andb_true_iff, IH, plain_go. split.
-  - intros [[? ?] ?]. constructor; auto.
-  - intros H. inversion H as [|? ? [? ?] ?]; subst. auto.
-Qed.
-
-Lemma plain_blist its : plain_items (DBList its) = true <-> items_plain its.
-Proof. cbn [plain_items]. apply plain_goi. Qed.
-Lemma plain_olist its : plain_items (DOList its) = true <-> items_plain its.
-Proof. cbn [plain_items]. apply plain_goi. Qed.
-Lemma plain_quote lr bs : plain_items (DQuote lr bs) = true <-> Forall (fun b => plain_items b = true) bs.
-Proof. cbn [plain_items]. apply plain_go. Qed.
-
 Section Content.
   Variable dir : string.
 
   (* the content of reader blocks in document order: what each block says, as the content items
      of NormFacts (a line of inlines, a code body, a rule; table cells one by one); the text that
-     leads a list item is the item's line *)
+     leads a list item is the item's line, an item that does not start with text has an empty
+     line (and an item that is just a list is that list's items) *)
   Fixpoint bcontent (b : dblock) {struct b} : list citem :=
     let fix go (l : list dblock) : list citem := match l with [] => [] | x :: r => bcontent x ++ go r end in
     let fix goi (l : list (list dblock)) : list citem :=
@@ -272,7 +230,8 @@ Section Content.
           (match it with
            | [] => []
            | (DPara _ _ | DHeader _ _ _) as h :: body => CI (lead_inlines dir h) :: go body
-           | h :: body => bcontent h ++ go body
+           | [(DBList _ | DOList _) as h] => bcontent h          (* merged into the enclosing list *)
+           | _ => CI [] :: go it                                  (* an item without text: an empty line *)
            end) ++ goi r
       end in
     match b with
@@ -288,7 +247,8 @@ Section Content.
     match it with
     | [] => []
     | (DPara _ _ | DHeader _ _ _) as h :: body => CI (lead_inlines dir h) :: bscontent body
-    | h :: body => bcontent h ++ bscontent body
+    | [(DBList _ | DOList _) as h] => bcontent h
+    | _ => CI [] :: bscontent it
     end.
 
   Lemma bcontent_go l :
@@ -308,14 +268,15 @@ Section Content.
               | (DPara _ _ | DHeader _ _ _) as h :: body =>
                   CI (lead_inlines dir h) ::
                   (fix go (l : list dblock) : list citem := match l with [] => [] | x :: r => bcontent x ++ go r end) body
-              | h :: body =>
-                  bcontent h ++
-                  (fix go (l : list dblock) : list citem := match l with [] => [] | x :: r => bcontent x ++ go r end) body
+              | [(DBList _ | DOList _) as h] => bcontent h
+              | _ =>
+                  CI [] ::
+                  (fix go (l : list dblock) : list citem := match l with [] => [] | x :: r => bcontent x ++ go r end) it
               end) ++ goi r
          end) its = flat_map item_content its).
     { intros l0. induction l0 as [|it r IH]; [reflexivity|]. cbn [flat_map]. rewrite IH.
       destruct it as [|h body]; [reflexivity|].
-      destruct h; cbn [item_content app]; rewrite ?bcontent_go; reflexivity. }
+      destruct h; try destruct body; cbn [item_content app]; rewrite ?bcontent_go; reflexivity. }
     split; cbn [bcontent]; apply H.
   Qed.
 
@@ -366,8 +327,9 @@ Section Content.
     item_tree dir (S f) it =
     match it with
     | [] => []
-    | (DBList inner | DOList inner) :: _ => flat_map (item_tree dir f) inner
-    | h :: body => [T None (NSection (lead_inlines dir h)) (blocks_tree dir f body)]
+    | [DBList inner] | [DOList inner] => flat_map (item_tree dir f) inner
+    | ((DPara _ _ | DHeader _ _ _) as h) :: body => [T None (NSection (lead_inlines dir h)) (blocks_tree dir f body)]
+    | _ => [T None (NSection []) (blocks_tree dir f it)]
     end.
   Proof. reflexivity. Qed.
 
@@ -379,100 +341,111 @@ Section Content.
   Proof. unfold items_content. apply flat_map_app. Qed.
 
   Definition block_ok n :=
-    forall f b, dblock_size b <= n -> 4 * n + 1 <= f -> plain_items b = true -> is_header b = false ->
+    forall f b, dblock_size b <= n -> 4 * n + 1 <= f -> is_header b = false ->
       tscontent (block_tree dir f b) = bcontent b.
   Definition item_ok n :=
-    forall f it, dblocks_size it <= n -> 4 * n + 1 <= f -> item_plain it = true ->
-      Forall (fun b => plain_items b = true) it ->
+    forall f it, dblocks_size it <= n -> 4 * n + 5 <= f ->
       items_content (item_tree dir f it) = item_content it.
   Definition sections_ok n :=
-    forall f L bs, dblocks_size bs <= n -> 4 * n + 3 <= f -> Forall (fun b => plain_items b = true) bs -> headed bs ->
+    forall f L bs, dblocks_size bs <= n -> 4 * n + 3 <= f -> headed bs ->
       tscontent (sections_tree dir f L bs) = bscontent bs.
   Definition blocks_ok n :=
-    forall f bs, dblocks_size bs <= n -> 4 * n + 4 <= f -> Forall (fun b => plain_items b = true) bs ->
+    forall f bs, dblocks_size bs <= n -> 4 * n + 4 <= f ->
       tscontent (blocks_tree dir f bs) = bscontent bs.
 
   Lemma items_fold_content n f its :
-    item_ok n -> items_plain its -> (forall it, In it its -> dblocks_size it <= n) -> 4 * n + 1 <= f ->
+    item_ok n -> (forall it, In it its -> dblocks_size it <= n) -> (its <> [] -> 4 * n + 5 <= f) ->
     items_content (flat_map (item_tree dir f) its) = flat_map item_content its.
   Proof.
-    intros HI Hok Hsz Hf. induction its as [|it r IH]; [reflexivity|].
+    intros HI Hsz Hf. specialize (fun it Hin => HI f it (Hsz it Hin)).
+    assert (Hf' : forall it, In it its -> 4 * n + 5 <= f) by (intros it Hin; apply Hf; intros ->; contradiction).
+    clear Hf Hsz. induction its as [|it r IH]; [reflexivity|].
     cbn [flat_map]. rewrite items_content_app.
-    unfold items_plain in Hok. inversion Hok as [|? ? [Hl Hb] Hr]; subst.
-    rewrite (HI f it (Hsz it (or_introl eq_refl)) Hf Hl Hb). f_equal.
-    apply IH; auto. intros x Hx. apply Hsz. now right.
+    rewrite (HI it (or_introl eq_refl) (Hf' it (or_introl eq_refl))). f_equal.
+    apply IH; intros x Hx; [apply HI | apply (Hf' x)]; now right.
   Qed.
 
   Lemma step_block_c n : (forall m, m < n -> item_ok m /\ blocks_ok m) -> block_ok n.
   Proof.
-    intros IH f b Hsz Hf Hok Hnh. destruct f as [|f]; [lia|]. rewrite block_tree_S'.
+    intros IH f b Hsz Hf Hnh. destruct f as [|f]; [lia|]. rewrite block_tree_S'.
     destruct b as [lr l|lr lang text|lr bs|its|its|lr lv l|lr|lr h al rows]; try discriminate;
       try (unfold tscontent; cbn [flat_map]; now rewrite app_nil_r).
     - (* quote *)
       rewrite size_quote in Hsz. destruct (IH (dblocks_size bs) ltac:(lia)) as [_ HB].
       unfold tscontent. cbn [flat_map tcontent]. rewrite app_nil_r. rewrite bcontent_quote.
-      apply (HB f bs (le_n _) ltac:(lia) (proj1 (plain_quote lr bs) Hok)).
+      apply (HB f bs (le_n _) ltac:(lia)).
     - (* ordered list *)
       rewrite size_olist in Hsz. set (n' := items_size its - 1).
       destruct (IH n' ltac:(destruct its; cbn [items_size] in *; lia)) as [HI _].
       unfold tscontent. cbn [flat_map tcontent]. rewrite app_nil_r.
       rewrite (proj2 (bcontent_list its)).
-      apply (items_fold_content n' f its HI (proj1 (plain_olist its) Hok)).
+      apply (items_fold_content n' f its HI).
       + intros it Hin. pose proof (items_size_in it its Hin). unfold n'. lia.
-      + unfold n'. destruct its; cbn [items_size] in *; lia.
+      + unfold n'. destruct its; [congruence | cbn [items_size] in *; lia].
     - (* bullet list *)
       rewrite size_blist in Hsz. set (n' := items_size its - 1).
       destruct (IH n' ltac:(destruct its; cbn [items_size] in *; lia)) as [HI _].
       unfold tscontent. cbn [flat_map tcontent]. rewrite app_nil_r.
       rewrite (proj1 (bcontent_list its)).
-      apply (items_fold_content n' f its HI (proj1 (plain_blist its) Hok)).
+      apply (items_fold_content n' f its HI).
       + intros it Hin. pose proof (items_size_in it its Hin). unfold n'. lia.
-      + unfold n'. destruct its; cbn [items_size] in *; lia.
+      + unfold n'. destruct its; [congruence | cbn [items_size] in *; lia].
   Qed.
 
-  Lemma step_item_c n : (forall m, m < n -> item_ok m /\ blocks_ok m) -> item_ok n.
+  (* an item without text: a section without text over the tree of all its blocks *)
+  Lemma item_no_text n f it :
+    blocks_ok n -> dblocks_size it <= n -> 4 * n + 4 <= f ->
+    items_content [T None (NSection []) (blocks_tree dir f it)] = CI [] :: bscontent it.
   Proof.
-    intros IH f it Hsz Hf Hl Hok. destruct f as [|f]; [lia|]. rewrite item_tree_S'.
+    intros HB Hsz Hf. unfold items_content. cbn [flat_map node_inlines]. rewrite app_nil_r.
+    f_equal. apply (HB f it Hsz Hf).
+  Qed.
+
+  Lemma step_item_c n : (forall m, m < n -> item_ok m /\ blocks_ok m) -> blocks_ok n -> item_ok n.
+  Proof.
+    intros IH HBn f it Hsz Hf. destruct f as [|f]; [lia|]. rewrite item_tree_S'.
     destruct it as [|h body]; [reflexivity|].
-    inversion Hok as [|? ? Hh Hb]; subst. rewrite dblocks_size_cons in Hsz.
+    pose proof Hsz as Hsz0. rewrite dblocks_size_cons in Hsz.
     pose proof (dblock_size_pos h) as Hpos.
-    destruct h as [lr l|lr lang text|lr bs|its|its|lr lv l|lr|lr hh al rows]; try discriminate.
+    destruct h as [lr l|lr lang text|lr bs|its|its|lr lv l|lr|lr hh al rows];
+      try (cbn [item_content]; apply (item_no_text n f _ HBn Hsz0); lia).
     - (* paragraph lead *)
       destruct (IH (dblocks_size body) ltac:(lia)) as [_ HB].
       unfold items_content. cbn [flat_map node_inlines item_content lead_inlines]. rewrite app_nil_r.
-      f_equal. apply (HB f body (le_n _) ltac:(lia) Hb).
-    - (* ordered list lead: merged into the enclosing list; the body is empty on this class *)
-      destruct body as [|? ?]; [|discriminate]. rewrite size_olist in Hsz.
+      f_equal. apply (HB f body (le_n _) ltac:(lia)).
+    - (* ordered list lead: alone it is merged into the enclosing list *)
+      destruct body as [|b1 body]; [|cbn [item_content]; apply (item_no_text n f _ HBn Hsz0); lia].
+      rewrite size_olist in Hsz.
       set (n' := items_size its - 1).
-      destruct (IH n' ltac:(destruct its; cbn [items_size] in *; lia)) as [HI _].
-      cbn [item_content]. unfold bscontent. cbn [flat_map]. rewrite app_nil_r.
+      destruct (IH n' ltac:(destruct its; cbn [items_size dblocks_size fold_right] in *; lia)) as [HI _].
+      cbn [item_content].
       rewrite (proj2 (bcontent_list its)).
-      apply (items_fold_content n' f its HI (proj1 (plain_olist its) Hh)).
+      apply (items_fold_content n' f its HI).
       + intros it Hin. pose proof (items_size_in it its Hin). unfold n'. lia.
-      + unfold n'. destruct its; cbn [items_size] in *; lia.
+      + unfold n'. destruct its; [congruence | cbn [items_size dblocks_size fold_right] in *; lia].
     - (* bullet list lead *)
-      destruct body as [|? ?]; [|discriminate]. rewrite size_blist in Hsz.
+      destruct body as [|b1 body]; [|cbn [item_content]; apply (item_no_text n f _ HBn Hsz0); lia].
+      rewrite size_blist in Hsz.
       set (n' := items_size its - 1).
-      destruct (IH n' ltac:(destruct its; cbn [items_size] in *; lia)) as [HI _].
-      cbn [item_content]. unfold bscontent. cbn [flat_map]. rewrite app_nil_r.
+      destruct (IH n' ltac:(destruct its; cbn [items_size dblocks_size fold_right] in *; lia)) as [HI _].
+      cbn [item_content].
       rewrite (proj1 (bcontent_list its)).
-      apply (items_fold_content n' f its HI (proj1 (plain_blist its) Hh)).
+      apply (items_fold_content n' f its HI).
       + intros it Hin. pose proof (items_size_in it its Hin). unfold n'. lia.
-      + unfold n'. destruct its; cbn [items_size] in *; lia.
+      + unfold n'. destruct its; [congruence | cbn [items_size dblocks_size fold_right] in *; lia].
     - (* heading lead *)
       destruct (IH (dblocks_size body) ltac:(lia)) as [_ HB].
       unfold items_content. cbn [flat_map node_inlines item_content lead_inlines]. rewrite app_nil_r.
-      f_equal. apply (HB f body (le_n _) ltac:(lia) Hb).
+      f_equal. apply (HB f body (le_n _) ltac:(lia)).
   Qed.
 
   Lemma step_sections_c n :
     (forall m, m < n -> blocks_ok m /\ sections_ok m) -> sections_ok n.
   Proof.
-    intros IH f L bs Hsz Hf Hok Hhd. destruct f as [|f]; [lia|]. rewrite sections_tree_S'.
+    intros IH f L bs Hsz Hf Hhd. destruct f as [|f]; [lia|]. rewrite sections_tree_S'.
     destruct bs as [|h r]; [reflexivity|].
     destruct (span_section L r) as [body rest] eqn:Es.
     destruct (span_section_spec L r body rest Es) as [-> Hrest].
-    inversion Hok as [|? ? Hh Hb]; subst. apply Forall_app in Hb as [Hbody Hrst].
     rewrite dblocks_size_cons, dblocks_size_app in Hsz.
     pose proof (dblock_size_pos h) as Hpos.
     cbn [headed] in Hhd. destruct h as [| | | | |lr lv l| |]; try discriminate.
@@ -480,20 +453,20 @@ Section Content.
     destruct (IH (dblocks_size rest) ltac:(lia)) as [_ HS].
     unfold tscontent. cbn [flat_map tcontent]. fold (tscontent (blocks_tree dir f body)).
     fold (tscontent (sections_tree dir f L rest)).
-    rewrite (HB f body (le_n _) ltac:(lia) Hbody), (HS f L rest (le_n _) ltac:(lia) Hrst Hrest).
+    rewrite (HB f body (le_n _) ltac:(lia)), (HS f L rest (le_n _) ltac:(lia) Hrest).
     unfold bscontent. cbn [flat_map bcontent lead_inlines]. rewrite flat_map_app. reflexivity.
   Qed.
 
   Lemma step_blocks_c n : block_ok n -> sections_ok n -> blocks_ok n.
   Proof.
-    intros HBk HSs f bs Hsz Hf Hok. destruct f as [|f]; [lia|]. rewrite blocks_tree_S'.
+    intros HBk HSs f bs Hsz Hf. destruct f as [|f]; [lia|]. rewrite blocks_tree_S'.
     destruct (span_pre bs) as [pre rest] eqn:Es.
     destruct (span_pre_spec bs pre rest Es) as (-> & Hpre & Hrest).
-    apply Forall_app in Hok as [Hokp Hokr]. rewrite dblocks_size_app in Hsz.
+    rewrite dblocks_size_app in Hsz.
     rewrite tscontent_app, bscontent_app. f_equal.
     - (* the blocks before the first heading *)
-      clear - HBk Hokp Hpre Hsz Hf. induction pre as [|b l IHl]; [reflexivity|].
-      inversion Hokp; subst. inversion Hpre; subst. rewrite dblocks_size_cons in Hsz.
+      clear - HBk Hpre Hsz Hf. induction pre as [|b l IHl]; [reflexivity|].
+      inversion Hpre; subst. rewrite dblocks_size_cons in Hsz.
       cbn [flat_map]. rewrite tscontent_app. unfold bscontent. cbn [flat_map]. f_equal.
       + apply HBk; auto; lia.
       + apply IHl; auto. lia.
@@ -506,24 +479,23 @@ Section Content.
   Proof.
     induction n as [n IH] using lt_wf_ind.
     assert (HBk : block_ok n) by (apply step_block_c; intros m Hm; destruct (IH m Hm) as (_ & ? & _ & ?); auto).
-    assert (HI : item_ok n) by (apply step_item_c; intros m Hm; destruct (IH m Hm) as (_ & ? & _ & ?); auto).
     assert (HSs : sections_ok n) by (apply step_sections_c; intros m Hm; destruct (IH m Hm) as (_ & _ & ? & ?); auto).
-    repeat split; auto. now apply step_blocks_c.
+    assert (HBs : blocks_ok n) by now apply step_blocks_c.
+    assert (HI : item_ok n) by (apply step_item_c; [intros m Hm; destruct (IH m Hm) as (_ & ? & _ & ?); auto | exact HBs]).
+    repeat split; auto.
   Qed.
 End Content.
 
 (* the specified tree of a note says what its blocks say: nothing lost, duplicated or reordered *)
 Theorem spec_conserves (key : string) (bs : list dblock) :
-  Forall (fun b => plain_items b = true) bs ->
   tcontent (key_parent key) (spec_tree key bs) = bscontent (key_parent key) bs.
 Proof.
-  intros Hok. unfold spec_tree, note_tree. cbn [tcontent].
+  unfold spec_tree, note_tree. cbn [tcontent].
   destruct (content_total (key_parent key) (dblocks_size bs)) as (_ & _ & _ & HB).
   apply HB; auto. unfold fuel_for. lia.
 Qed.
 
 (* ... and so do the blocks written for it (with NormFacts.project_conserves) *)
 Theorem spec_written_conserves (key : string) (bs : list dblock) :
-  Forall (fun b => plain_items b = true) bs ->
   flat_map (gcontent) (project (key_parent key) (spec_tree key bs)) = bscontent (key_parent key) bs.
-Proof. intros Hok. rewrite project_conserves. now apply spec_conserves. Qed.
+Proof. rewrite project_conserves. now apply spec_conserves. Qed.
